@@ -275,7 +275,9 @@ class GaussianBackend(BaseGaussian):
         if modes is None:
             modes = list(range(len(self.get_modes())))
 
-        listmodes = list(concatenate((2 * array(modes), 2 * array(modes) + 1)))
+        # rows of the circuit's matrices belonging to the requested (active) modes
+        inds = array(self.get_modes(), dtype=int)[modes]
+        listmodes = list(concatenate((2 * inds, 2 * inds + 1)))
         covmat = empty((2 * len(modes), 2 * len(modes)))
         means = r[listmodes]
 
